@@ -64,7 +64,14 @@ def configs(tier):
                                 dis += [("prefix_name", (1,), (), {"disable_vary_name": ["k1"]}), ("prefix_tag", (1,), (), {"disable_vary": ["v1"]})]
                             if nt > 2:
                                 dis += [("prefix_ttag", (), (1,), {"disable_target": ["t1"]})]
-                            for dname, dv, dt, stepkw in dis:
+                            variants = [{}]
+                            if lname != "none" and mname in ("none", "uniform"):
+                                # where the limits come from (Vary arguments or the container's vary_default table), and the
+                                # optimizer built with check_limits=False (the merit function then does not raise, the solver
+                                # must keep the iterates inside all the same)
+                                variants += [{"lim_source": "defaults_both"}, {"lim_source": "defaults_limits"}, {"lim_source": "defaults_step"},
+                                             {"check_limits": False}]
+                            for (dname, dv, dt, stepkw), variant in [(d, v) for d in dis for v in variants if not v or d[0] in ("none", "dv", "dt")]:
                                 calls = [("step", 1), ("step", 4)] if tier == "quick" else [("step", 1), ("step", 3), ("step", 8)]
                                 if not stepkw and dname != "seq_tune":
                                     # (a failing solve() restores iteration 0, which legitimately undoes a knob the user re-tuned by
@@ -74,7 +81,8 @@ def configs(tier):
                                     for br in ((False,) if tier == "quick" else (False, True)):
                                         spec = {"fam": fam, "x0": x0, "limits": lim, "max_step": ms, "kw": kw, "tw": None, "tol": 1e-9,
                                                 "tshift": tshift, "dv": dv, "dt": dt, "stepkw": stepkw, "call": call, "broyden": br,
-                                                "nsm": 6, "names": (lname, mname, dname)}
+                                                "nsm": 6, "names": (lname, mname, dname) + tuple(sorted(variant.items()))}
+                                        spec.update(variant)
                                         if dname == "seq_tune":
                                             spec["pre_seq"] = True
                                         if dname == "pre_view":
@@ -201,10 +209,21 @@ def run_case(spec):
         return out, exc
     # ---- a disabled target has no influence: differential twin
     dis_t = set(spec["dt"]) | idx_of(spec["stepkw"].get("disable_target"), nt, "t", p.ttags)
-    for j in sorted(dis_t):
-        alt = (j, lambda k, j=j: 7.0 * k[0] - 3.0 + (k[-1] + 1.0) ** 2 + j, 11.0)
+    start = list(k_before)
+    alts = [("another function", lambda k, j=0: 7.0 * k[0] - 3.0 + (k[-1] + 1.0) ** 2 + j),
+            # finite at the start point, not a number / infinite everywhere else
+            ("a function that is nan away from the start point", lambda k, j=0: 1.0 + j if list(k) == start else float("nan")),
+            ("a function that is inf away from the start point", lambda k, j=0: 1.0 + j if list(k) == start else float("inf"))]
+    for j, (alt_name, alt_f) in [(j, a) for j in sorted(dis_t) for a in alts]:
+        alt = (j, lambda k, j=j, alt_f=alt_f: alt_f(k, j), 11.0)
         q = O.Problem(spec, alt_target=alt)
-        exc2 = do_call(q, spec)
+        from .c16 import Deadline
+        try:
+            with Deadline(10):
+                exc2 = do_call(q, spec)
+        except TimeoutError as e:
+            out.append(issue(spec, f"with the disabled target {j} changed to {alt_name} the call did not return within 10 s"))
+            return out, exc
         rows2 = q.log_rows()
         same = len(rows) == len(rows2) and type(exc) is type(exc2)
         if same:
@@ -216,7 +235,7 @@ def run_case(spec):
                     same = False
                     break
         if not same or p.knob_values() != q.knob_values():
-            out.append(issue(spec, f"changing only the function/value of the disabled target {j} changed the steps taken: "
+            out.append(issue(spec, f"changing only the function/value of the disabled target {j} (to {alt_name}) changed the steps taken: "
                                    f"knob trajectory {[r['knobs'] for r in rows[nrows0:]][:4]!r} vs {[r['knobs'] for r in rows2[nrows0:]][:4]!r} "
                                    f"(exceptions {type(exc).__name__ if exc else None} / {type(exc2).__name__ if exc2 else None})"))
             return out, exc
